@@ -118,6 +118,8 @@ impl Node {
         // can properly release it below.
         let _reservation = self.reserve_writer();
         assert_eq!(NODE_USED, self.in_use.swap(NODE_COOLDOWN, Release));
+        #[cfg(arc_swap_verif)]
+        verif_rt::event(verif_rt::probes::COOLDOWN_STARTED, self as *const Node as usize);
     }
 
     /// Perform a cooldown if the node is ready.
@@ -134,6 +136,8 @@ impl Node {
             // operations. We just see an up to date 0 and allow someone (possibly us) to claim the
             // node later on.
             if self.active_writers.load(Relaxed) == 0 {
+                #[cfg(arc_swap_verif)]
+                verif_rt::probe(verif_rt::probes::COOLDOWN_ENDED, false);
                 let _ = self
                     .in_use
                     .compare_exchange(NODE_COOLDOWN, NODE_UNUSED, Relaxed, Relaxed);
@@ -162,6 +166,8 @@ impl Node {
                 .compare_exchange(NODE_UNUSED, NODE_USED, SeqCst, Relaxed)
                 .is_ok()
             {
+                #[cfg(arc_swap_verif)]
+                verif_rt::event(verif_rt::probes::NODE_CLAIMED, node as *const Node as usize);
                 Some(node)
             } else {
                 None
@@ -171,6 +177,8 @@ impl Node {
         .unwrap_or_else(|| {
             let node = Box::leak(Box::<Node>::default());
             node.helping.init();
+            #[cfg(arc_swap_verif)]
+            node.verif_label();
             // We don't want to read any data in addition to the head, Relaxed is fine
             // here.
             //
@@ -190,6 +198,8 @@ impl Node {
                 ) {
                     head = old;
                 } else {
+                    #[cfg(arc_swap_verif)]
+                    verif_rt::event(verif_rt::probes::NODE_CREATED, node as *const Node as usize);
                     return node;
                 }
             }
@@ -240,6 +250,8 @@ impl LocalNode {
             // Note that the situation should be very very rare and not happen often, so the slower
             // performance doesn't matter that much.
             .unwrap_or_else(|_| {
+                #[cfg(arc_swap_verif)]
+                verif_rt::probe(verif_rt::probes::TLS_GONE_NODE, false);
                 let tmp_node = LocalNode {
                     node: Cell::new(Some(Node::get())),
                     fast: FastLocal::default(),
@@ -382,4 +394,91 @@ mod tests {
     fn new_empty() {
         assert!(Node::get_thread().is_empty());
     }
+}
+
+/// Observers and knobs for the simulator. Nothing here is compiled without
+/// `--cfg arc_swap_verif`; the observers have no side effects on the debt machinery.
+#[cfg(arc_swap_verif)]
+pub(crate) mod verif_hooks {
+    use super::*;
+    use alloc::vec::Vec;
+
+    /// A snapshot of one node (all values are the modification-order-latest ones).
+    #[derive(Clone, Debug)]
+    pub struct NodeInfo {
+        /// Address of the node.
+        pub addr: usize,
+        /// 0 unused, 1 used, 2 cooldown.
+        pub in_use: usize,
+        /// Writers currently inside the node.
+        pub active_writers: usize,
+        /// The helping control word.
+        pub control: usize,
+        /// The eight fast slots followed by the helping slot.
+        pub slots: [usize; 9],
+        /// Address the helping reader announced.
+        pub active_addr: usize,
+    }
+
+    impl Node {
+        pub(super) fn verif_label(&self) {
+            use verif_rt::LocClass;
+            self.fast.verif_label();
+            self.helping.verif_label();
+            self.in_use.verif_label(LocClass::InUse, 0);
+            self.active_writers.verif_label(LocClass::ActiveWriters, 0);
+        }
+    }
+
+    /// All nodes, newest first.
+    pub fn nodes() -> Vec<NodeInfo> {
+        let mut out = Vec::new();
+        let mut cur = LIST_HEAD.verif_peek() as *const Node;
+        while let Some(node) = unsafe { cur.as_ref() } {
+            let mut slots = [Debt::NONE; 9];
+            for (i, d) in node.fast_slots().enumerate() {
+                slots[i] = d.0.verif_peek();
+            }
+            let (control, slot, active_addr, _space) = node.helping.verif_snapshot();
+            slots[8] = slot;
+            out.push(NodeInfo {
+                addr: node as *const Node as usize,
+                in_use: node.in_use.verif_peek(),
+                active_writers: node.active_writers.verif_peek(),
+                control,
+                slots,
+                active_addr,
+            });
+            cur = node.next;
+        }
+        out
+    }
+
+    /// The node of the calling (simulated) thread, if it has one. Does not create anything.
+    pub fn my_node() -> Option<usize> {
+        THREAD_HEAD
+            .verif_peek(|h| h.node.get().map(|n| n as *const Node as usize))
+            .flatten()
+    }
+
+    /// Preset the helping generation counter of the calling thread.
+    pub fn set_generation(gen: usize) {
+        THREAD_HEAD.with(|h| h.helping.verif_set_generation(gen));
+    }
+
+    /// Frees every node and empties the list. Only between simulated executions, when no
+    /// simulated thread exists.
+    pub unsafe fn reset() {
+        let mut cur = LIST_HEAD.verif_peek();
+        LIST_HEAD.store(ptr::null_mut(), SeqCst);
+        LIST_HEAD.verif_label(verif_rt::LocClass::ListHead, 0);
+        while !cur.is_null() {
+            let next = (*cur).next as *mut Node;
+            drop(Box::from_raw(cur));
+            cur = next;
+        }
+    }
+
+    /// The value meaning "no debt" in a slot.
+    pub const NO_DEBT: usize = Debt::NONE;
 }
